@@ -299,6 +299,22 @@ def oracle(seed, tier):
                     res.violation('result-disagrees', wit, 'result() -> %s but stored %s' % (out, _exc_id(c.exception)))
                 if not has_exc and not out.startswith('returns'):
                     res.violation('result-disagrees', wit, 'result() -> %s with no exception stored' % out)
+            if j == len(seq) - 1 or rng.random() < 0.15:
+                # a cancel whose exception cannot be built (exc_type raising in its constructor) must leave
+                # the coordinator exactly as it was: "status, stored exception and result agree" at all times
+                before = rig.state()
+
+                def bad_type(msg):
+                    raise TypeError('cannot build the cancellation error')
+                try:
+                    rig.c.cancel('m', bad_type)
+                    raised = False
+                except TypeError:
+                    raised = True
+                after = rig.state()
+                if after != before or (not raised and not rig.c.done()):
+                    res.violation('cancel-with-unbuildable-error-changes-state', dict(wit, before=before, after=after),
+                                  'cancel(msg, exc_type) with an exc_type that raises changed the state: %s -> %s' % (before, after))
         res.nontrivial.add(tuple(seq))
     # threaded: first recorded failure wins, judged in lock-acquisition order
     for i in range(200 if tier == 'quick' else 4000):
